@@ -30,6 +30,25 @@ CLAIMED = {
    note=TB + "secp256k1 itself (ECDSA/Schnorr verification, low-S test) is outside the model: an oracle answered by tools/refcrypto.py and compared with the implementation's verdicts through the session outcome. The legacy/BIP143/BIP341 preimage layouts are hand-modelled (Sighash.v) and cross-checked by tools/gen_spend.py's independent implementation. Known finding F31.",
    technique="Coq proofs about digest models and signature opcodes + differential correspondence incl. verification-call arguments (ld --wrap) with independently signed spends",
    ref="DESIGN.md §2 C02"),
+ "C12": dict(
+   text="Theorems (Properties/C12.v): every operation line of the listing carries its own index as number and headers occupy an index; nothing is "
+        "marked past the end. NOT yet proved: the marker invariant over sessions (C12_marker_designates_next_operation: in every reachable state "
+        "the marked line is the rendering of the operation at pc or the header of the section entered next) - decided by correspondence: the real "
+        "interactive btcdeb driven through a pty (print after every step/rewind; plain scripts, scriptPubKey and P2SH sections, P2WSH, taproot "
+        "key path, tapscript with control paths 0..2) vs the model's listing and marked line, the step/rewind echo, and - on the implementation "
+        "alone - the marked line vs the operation at the program counter reported by the harness.",
+   note=TB + "tools/ptyrun.py (pty driver, print parser) is trusted. Known finding F37 (after a FAILED step pc and marker disagree).",
+   technique="Coq proofs about listing numbering + pty-driven differential correspondence of listing, marker and echo",
+   ref="DESIGN.md §2 C12"),
+ "C15": dict(
+   text="Theorem (Properties/C15.v): session configuration never indexes outside the funding transaction once input selection succeeded (the "
+        "model's only configuration crash outcome is unreachable). Memory safety itself is not expressible in the executable model: the runtime "
+        "part rebuilds the tree with AddressSanitizer+UndefinedBehaviorSanitizer and runs the inputs of every other property plus structure-aware "
+        "mutations through the harness, fuzzes the command lines of btcc/tap/btcdeb (pipes and pty) and interactive command sequences; thorough adds "
+        "valgrind memcheck. Any signal, sanitizer report, failed assertion or uncaught exception is a violation with the input as replay.",
+   note=TB + "PARTIAL by nature: the theorem covers the model's explicit crash outcomes only; out-of-bounds / use-after-free / uninitialised reads are decided by sanitizer runs (testing, not proof) as the brief allows for runtime behaviour.",
+   technique="Coq proof of crash-outcome unreachability in the model + sanitizer/valgrind execution of generated and mutated inputs",
+   ref="DESIGN.md §2 C15"),
  "C11": dict(
    text="Theorems (Properties/C11.v): a listed (signature, key) pair makes EvalChecksig succeed and counts as a match in the CHECKMULTISIG loop before "
         "any checker/flag/encoding/version is consulted; every pair of every list the option parser accepts is honoured (table invariant proved over the "
